@@ -16,6 +16,8 @@ RULE = ("generated topologies: 1..300 atoms quick / to 3000 thorough; shapes cha
         "increasing atom numbers with random gaps; bonds spread over constraints/bonds/pairs, sections split into repeated "
         "occurrences and permuted (bonds before atoms included), unrelated sections, comment/blank/preprocessor lines, "
         "varied spacing, integer spellings (+5, 007, 1_000), trailing comments, CRLF files, missing final newline; "
+        "walk lengths tied to sys.getrecursionlimit() every run (chains / cut chains / rings / caterpillars of limit-12..limit+2 "
+        "atoms, the same from 40/150/400 extra stack frames, and relative to lowered limits 180 and 320); "
         "copy histories every run: load, mutate through the public API (connect, resnames/resids setters, atom and molecule "
         "names), keep / delete / overwrite the file, copy: the copy must equal the CURRENT object and stay independent; "
         "call histories every run: one scratch path reused for 3-6 successive different topologies (incl. pairs of equal "
@@ -233,6 +235,100 @@ DEMO_COPY = [([["resnames", ["XXX", "YYY"]]], "keep"), ([["connect", 1, 2]], "ke
              ([["resids", [5, 9]], ["rename", 0, "CX"], ["molname", "JOINED"]], "overwrite")]
 
 
+# ------------------------------------------------------------------ long walks: sizes tied to the recursion limit
+def long_path_graph(rs, n, kind):
+    """graphs whose depth-first walk from atom 0 follows a path of about n atoms"""
+    if kind == "chain":
+        return [(k, k + 1) for k in range(n - 1)]
+    if kind == "chain_cut":
+        return [(k, k + 1) for k in range(n - 1) if k != n - 3]
+    if kind == "ring":
+        return [(k, k + 1) for k in range(n - 1)] + [(n - 1, 0)]
+    spine = max(1, n - 6)           # caterpillar: a spine with a few leaves
+    return [(k, k + 1) for k in range(spine - 1)] + [(int(rs.randint(0, spine)), k) for k in range(spine, n)]
+
+
+def conn_in_context(atoms, depth=0, reclimit=None):
+    """are_connected called from `depth` additional stack frames and/or under a lowered interpreter recursion limit
+    (both are legal circumstances of a call: the answer must not depend on them)"""
+    import sys
+    from gaddlemaps.components import are_connected
+
+    def call(d):
+        if d > 0:
+            return call(d - 1)
+        return bool(are_connected(atoms))
+    old = sys.getrecursionlimit()
+    try:
+        if reclimit:
+            sys.setrecursionlimit(reclimit)
+        return ic.guarded(lambda: call(depth))
+    finally:
+        sys.setrecursionlimit(old)
+
+
+def oracle_conn_context(text, truth, depth, reclimit):
+    from gaddlemaps.components import MoleculeTop
+    try:
+        mol = MoleculeTop(ic.write_text(text))
+    except Exception as ex:   # noqa: BLE001
+        return ["MoleculeTop raised %s" % type(ex).__name__], None, None
+    want = ic.components(len(truth[1]), truth[2]) == 1
+    got = conn_in_context(mol.atoms, depth, reclimit)
+    bad = []
+    if got != ("ok", want):
+        bad.append("are_connected (%d atoms, %d extra frames, recursion limit %s) gave %s, graph connected = %s"
+                   % (len(truth[1]), depth, reclimit or "default", got, want))
+    return bad, mol, got
+
+
+def recursion_limit_cases(rs, quick=True):
+    """(label, n, bonds, depth, reclimit): walk lengths just below / at / above the interpreter's recursion limit, the
+    same from deeper stacks, and the same relative to a lowered limit (small, so they can also go to the model)"""
+    import sys
+    L = sys.getrecursionlimit()
+    out = []
+    for k in range(1, 13 if quick else 40):
+        out.append(("chain_limit-%d" % k, L - k, "chain", 0, None))
+    for n in (L, L + 1, L + 2):
+        out.append(("chain_limit+%d" % (n - L), n, "chain", 0, None))
+    for n, kind in ((L - 1, "chain_cut"), (L - 1, "caterpillar"), (L - 2, "caterpillar"), (L - 1, "ring"), (L - 3, "ring"),
+                    (L + 1, "chain_cut")):
+        out.append(("%s_limit%+d" % (kind, n - L), n, kind, 0, None))
+    for d in (40, 150, 400):
+        for k in (6, 3, 1, 0):
+            out.append(("chain_depth%d_limit-%d" % (d, d + k), L - d - k, "chain", d, None))
+    for L2 in (180, 320):
+        for k in range(-1, 15):
+            out.append(("chain_lowlimit%d-%d" % (L2, k), L2 - k, "chain", 0, L2))
+        out.append(("caterpillar_lowlimit%d" % L2, L2 - 3, "caterpillar", 0, L2))
+        out.append(("chain_cut_lowlimit%d" % L2, L2 - 2, "chain_cut", 0, L2))
+    return [(lab, n, long_path_graph(rs, n, kind), d, rl) for lab, n, kind, d, rl in out if n >= 1]
+
+
+def check_recursion_limit(ctx, rs, cases=None, meta=None):
+    """S on every case; with cases/meta the lowered-limit ones (small) also become K cases. Returns failures."""
+    fails = 0
+    for label, n, bonds, depth, reclimit in recursion_limit_cases(rs, ctx.quick):
+        if cases is not None and n > 400:
+            continue            # the K pass takes the small ones; the S pass takes all
+        t = ic.gen_topology(rs, n, label, deco=False, bonds=bonds, spread=True)
+        text = ic.render_topology(rs, t, deco=False)
+        truth = ic.expected_topology(t)
+        bad, mol, got = oracle_conn_context(text, truth, depth, reclimit)
+        ctx.count(("reclimit", label, n))
+        if bad:
+            fails += 1
+            ctx.violation("topology %s: %s" % (label, "; ".join(bad)),
+                          {"kind": "conn_context", "text": text, "depth": depth, "reclimit": reclimit,
+                           "truth": [truth[0], [list(a) for a in truth[1]], [list(b) for b in truth[2]]]}, key="recursion_limit")
+        if cases is not None and mol is not None and n <= 400:
+            adj = [list(a.bonds) for a in mol]
+            cases.append("chk_conn %s %s" % (ic.clist(ic.clist(ic.cz(x) for x in b) for b in adj), ic.cres(got, ic.cb)))
+            meta.append({"kind": "adjacency", "gen": "reclimit:" + label, "adj": adj})
+    return fails
+
+
 def make_case(rs, n, shape, deco=True, selfbond=False):
     t = ic.gen_topology(rs, n, shape, deco=deco, selfbond=selfbond)
     text = ic.render_topology(rs, t, deco=deco, final_newline=bool(rs.randint(0, 5)) if deco else True)
@@ -312,6 +408,19 @@ def corpus(ctx):
         text = ic.render_topology(rs, t, deco=False)
         check_generated(ctx, text, ic.expected_topology(t), key="long_chain", label="chain of %d atoms" % n)
         S["corpus"] += 1
+    # walk lengths just below the recursion limit (a recursive fast path below the limit forgets the caller's frames)
+    import sys
+    L = sys.getrecursionlimit()
+    for n, kind, depth in ((L - 3, "chain", 0), (L - 2, "chain", 0), (L - 1, "chain", 0), (L, "chain", 0), (L - 1, "chain_cut", 0),
+                           (L - 60, "chain", 58)):
+        t = ic.gen_topology(rs, n, kind, deco=False, bonds=long_path_graph(rs, n, kind), spread=True)
+        text, truth = ic.render_topology(rs, t, deco=False), ic.expected_topology(t)
+        bad = oracle_conn_context(text, truth, depth, None)[0]
+        S["corpus"] += 1
+        if bad:
+            ctx.violation("corpus %s of %d atoms: %s" % (kind, n, "; ".join(bad)),
+                          {"kind": "conn_context", "text": text, "depth": depth, "reclimit": None,
+                           "truth": [truth[0], [list(a) for a in truth[1]], [list(b) for b in truth[2]]]}, key="recursion_limit")
     # copy of an object CHANGED after loading / whose file is gone (a copy that re-parses the file reflects the file)
     for ops, action in DEMO_COPY:
         check_mutated_copy(ctx, DEMO_FRAG, ops, action, label=" (corpus)")
@@ -415,6 +524,9 @@ def correspondence(ctx):
         add_file(text, path, "malformed:" + tag)
     for p in ic.shipped_topologies(include_large=not ctx.quick):
         add_file(None, p, "shipped")
+    # walk lengths around the recursion limit (S on all; the lowered-limit ones are small enough for the model)
+    check_recursion_limit(ctx, rs, cases=cases, meta=meta)
+    hist["recursion_limit"] = len(recursion_limit_cases(rs, ctx.quick))
     # copy of mutated objects against the heap model (built from the CURRENT value of the object)
     for _ in range(ctx.n(40, 400)):
         n = int(rs.randint(1, 13))
@@ -543,6 +655,10 @@ def oracle(ctx, scale):
     nh = ctx.n(25, 200) * scale
     fails += check_history(ctx, rs, nh)
     S["same_path_histories_x%d" % scale] = nh
+    # walk lengths around the recursion limit, from deeper stacks, under lowered limits
+    for _ in range(scale):
+        fails += check_recursion_limit(ctx, rs)
+    S["recursion_limit_cases_x%d" % scale] = len(recursion_limit_cases(rs, ctx.quick)) * scale
     # size boundaries: see ic.boundary_graphs
     nb = 0
     for _ in range(scale):
@@ -577,6 +693,10 @@ def replay(ctx, obj):
         tr = r["truth"]
         path = ic.write_text(r["text"], crlf=bool(r.get("crlf")))
         bad = oracle_topology(path, (tr[0], [tuple(a) for a in tr[1]], [tuple(b) for b in tr[2]]))
+    elif r.get("kind") == "conn_context":
+        tr = r["truth"]
+        bad = oracle_conn_context(r["text"], (tr[0], [tuple(a) for a in tr[1]], [tuple(b) for b in tr[2]]),
+                                  r.get("depth", 0), r.get("reclimit"))[0]
     elif r.get("kind") == "mutated_copy":
         bad = mutated_copy(r["text"], r["ops"], r["file"])[0]
     elif r.get("kind") == "history":
